@@ -128,3 +128,126 @@ Proof. vm_compute. reflexivity. Qed.
 Example C17_example_lib_ok :
   lib_ok [BEntry hdr0 (lit "article") (lit "k1") ex_fields; BImpl hdr0 (lit "c"); BEntry hdr0 (lit "book") (lit "k2") []]%string.
 Proof. split; vm_compute; repeat constructor; simpl; intuition discriminate. Qed.
+
+(* ================================================================================================================
+   C17 for EVERY str.lower.  The theorems above are about the ASCII instance [Base.Chars.lower] of str.lower().
+   Below, the custom sort, its constructor and NormalizeFieldKeys are the same transcriptions of the Python
+   (Model/SortFieldsGen.v, Model/FieldKeysGen.v) over an ARBITRARY function [lowerU : str -> str] standing for
+   CPython's str.lower (which is not a map over characters: final sigma is context-sensitive, U+0130 lowers to two
+   code points); specifications: Spec/C17Gen.v; proofs: Proofs/SortFieldsGenProofs.v.  [lowerU] and the only
+   hypothesis ever made about it, [lower_idempotent lowerU := forall s, lowerU (lowerU s) = lowerU s], are explicit
+   arguments/premises of closed theorems.  (CPython 3.12.1 / Unicode 15.0: lower() is idempotent - checked for all
+   0x110000 code points, the image of lower() contains no context-sensitive character.)
+   The alphabetical middleware never calls lower(): C17_alpha, C17_alpha_unique and its parts of C17_frame / C17_idem
+   are already for every str.lower. *)
+From BP Require Import Model.SortFieldsGen Model.FieldKeysGen Spec.C17Gen Proofs.SortFieldsGenProofs.
+
+(* custom order, NO hypothesis on lowerU: a permutation, ordered by position of the folded key in the order list
+   (listed first in listed order, unlisted after), ties in source order; the contract determines the result; explicit
+   listed-first form for every order list the constructor accepts *)
+Theorem C17_gen_custom : forall (lowerU : str -> str) cs ord fs,
+  custom_spec_gen lowerU cs ord fs (sort_custom_gen lowerU cs ord fs)
+  /\ (forall out, custom_spec_gen lowerU cs ord fs out -> out = sort_custom_gen lowerU cs ord fs)
+  /\ (forall order, custom_ctor_gen lowerU cs order = Some ord ->
+        sort_custom_gen lowerU cs ord fs = custom_explicit_gen lowerU cs ord fs).
+Proof. exact gen_custom. Qed.
+Print Assumptions C17_gen_custom.
+
+(* constructor, NO hypothesis: ValueError exactly when the order list has duplicates after folding with lowerU;
+   otherwise the folded list is kept *)
+Theorem C17_gen_ctor : forall (lowerU : str -> str) cs order,
+  (custom_ctor_gen lowerU cs order = None <-> ~ NoDup (map (folded_gen lowerU cs) order))
+  /\ (forall ord, custom_ctor_gen lowerU cs order = Some ord -> ord = map (folded_gen lowerU cs) order /\ NoDup ord).
+Proof. exact gen_ctor. Qed.
+Print Assumptions C17_gen_ctor.
+
+(* normalisation, NO hypothesis: keys = first occurrences of the lowerU names in order, unique; each key carries value
+   and start line of the LAST field with that lowerU name, which is a field of the input (no value changed or
+   invented).  With idempotence: every resulting key is lower-case (a fixed point of lowerU). *)
+Theorem C17_gen_normalize : forall (lowerU : str -> str) fs,
+  normalize_spec_gen lowerU fs (normalize_fields_gen lowerU fs)
+  /\ (lower_idempotent lowerU -> keys_lower_gen lowerU (normalize_fields_gen lowerU fs)).
+Proof. exact gen_normalize. Qed.
+Print Assumptions C17_gen_normalize.
+
+(* frame, NO hypothesis: on a library satisfying Library's key invariant the result corresponds block for block
+   (non-entries as they are; of an entry only fields and the middleware's own metadata entry may differ), it is the
+   block-wise image, and an entry keeps type and key and gets the sorted / normalised fields *)
+Theorem C17_gen_frame : forall (lowerU : str -> str) bs, lib_ok bs ->
+  (forall cs tup ord, lib_frame (Some custom_meta_key) bs (mw_custom_gen lowerU cs tup ord bs))
+  /\ lib_frame None bs (mw_normalize_gen lowerU bs)
+  /\ (forall cs tup ord, mw_custom_gen lowerU cs tup ord bs = map (custom_block_gen lowerU cs tup ord) bs)
+  /\ mw_normalize_gen lowerU bs = map (normalize_block_gen lowerU) bs
+  /\ (forall h t k fs,
+        (forall cs tup ord, exists h',
+            custom_block_gen lowerU cs tup ord (BEntry h t k fs) = BEntry h' t k (sort_custom_gen lowerU cs ord fs))
+        /\ normalize_block_gen lowerU (BEntry h t k fs) = BEntry h t k (normalize_fields_gen lowerU fs)).
+Proof. exact frame_all_g. Qed.
+Print Assumptions C17_gen_frame.
+
+(* idempotence: the custom sort for EVERY lowerU (any list of blocks, metadata included); NormalizeFieldKeys if
+   lowerU is idempotent - and ONLY if: idempotence of the middleware (on libraries or on field lists), and
+   "the normalised keys are lower-case", each imply that lowerU is idempotent (a one-field entry shows it) *)
+Theorem C17_gen_idem : forall (lowerU : str -> str),
+  (forall cs tup ord bs,
+     mw_custom_gen lowerU cs tup ord (mw_custom_gen lowerU cs tup ord bs) = mw_custom_gen lowerU cs tup ord bs)
+  /\ (forall cs ord fs,
+        sort_custom_gen lowerU cs ord (sort_custom_gen lowerU cs ord fs) = sort_custom_gen lowerU cs ord fs)
+  /\ (lower_idempotent lowerU ->
+        (forall bs, mw_normalize_gen lowerU (mw_normalize_gen lowerU bs) = mw_normalize_gen lowerU bs)
+        /\ (forall fs, normalize_fields_gen lowerU (normalize_fields_gen lowerU fs) = normalize_fields_gen lowerU fs)
+        /\ (forall fs, keys_lower_gen lowerU (normalize_fields_gen lowerU fs)))
+  /\ ((forall bs, mw_normalize_gen lowerU (mw_normalize_gen lowerU bs) = mw_normalize_gen lowerU bs)
+        -> lower_idempotent lowerU)
+  /\ ((forall fs, normalize_fields_gen lowerU (normalize_fields_gen lowerU fs) = normalize_fields_gen lowerU fs)
+        -> lower_idempotent lowerU)
+  /\ ((forall fs, keys_lower_gen lowerU (normalize_fields_gen lowerU fs)) -> lower_idempotent lowerU).
+Proof. exact idem_all_g. Qed.
+Print Assumptions C17_gen_idem.
+
+(* the instance: with lowerU := Base.Chars.lower the generalised model IS the model the correspondence runs
+   (Model/SortFields.v, Model/FieldKeys.v, the library-level middlewares) and the generalised specification IS
+   Spec/C17.v - every equation by conversion; and the ASCII lower is idempotent *)
+Theorem C17_gen_instance :
+  (forall cs k, fold_key_gen lower cs k = fold_key cs k)
+  /\ (forall cs order, custom_ctor_gen lower cs order = custom_ctor cs order)
+  /\ (forall cs ord f, custom_rank_gen lower cs ord f = custom_rank cs ord f)
+  /\ (forall cs ord fs, sort_custom_gen lower cs ord fs = sort_custom cs ord fs)
+  /\ (forall cs tup ord b, custom_block_gen lower cs tup ord b = custom_block cs tup ord b)
+  /\ (forall f, lowered_gen lower f = lowered f)
+  /\ (forall d fs, norm_loop_gen lower d fs = norm_loop d fs)
+  /\ (forall fs, normalize_fields_gen lower fs = normalize_fields fs)
+  /\ (forall b, normalize_block_gen lower b = normalize_block b)
+  /\ (forall cs tup ord bs, mw_custom_gen lower cs tup ord bs = mw_custom cs tup ord bs)
+  /\ (forall bs, mw_normalize_gen lower bs = mw_normalize bs)
+  /\ (forall cs k, folded_gen lower cs k = folded cs k)
+  /\ (forall cs ord f, field_pos_gen lower cs ord f = field_pos cs ord f)
+  /\ (forall cs ord fs out, custom_spec_gen lower cs ord fs out = custom_spec cs ord fs out)
+  /\ (forall cs ord fs, custom_explicit_gen lower cs ord fs = custom_explicit cs ord fs)
+  /\ (forall k fs, last_with_gen lower k fs = last_with k fs)
+  /\ (forall fs out, (normalize_spec_gen lower fs out /\ keys_lower_gen lower out) <-> normalize_spec fs out)
+  /\ lower_idempotent lower.
+Proof. exact gen_instance. Qed.
+Print Assumptions C17_gen_instance.
+
+(* ---- non-vacuity over oracles that are NOT maps over characters *)
+(* a toy lower() that changes lengths ("X" -> "xy", as U+0130 -> "i" U+0307) and is idempotent *)
+Definition toy_lower (s : str) : str := if str_eqb s (lit "X") then lit "xy" else lower s.
+
+Example C17_gen_example_normalize :
+  normalize_fields_gen toy_lower [fld "X" 0; fld "b" 1; fld "XY" 2; fld "xy" 3; fld "B" 4]%string
+  = [fld "xy" 3; fld "b" 4]%string.
+Proof. vm_compute. reflexivity. Qed.
+
+Example C17_gen_example_custom :
+  custom_ctor_gen toy_lower false [lit "X"; lit "XY"]%string = None
+  /\ custom_ctor_gen toy_lower false [lit "b"; lit "X"]%string = Some [lit "b"; lit "xy"]%string
+  /\ sort_custom_gen toy_lower false [lit "b"; lit "xy"]%string [fld "X" 0; fld "c" 1; fld "B" 2; fld "xy" 3; fld "b" 4]%string
+     = [fld "B" 2; fld "b" 4; fld "X" 0; fld "xy" 3; fld "c" 1]%string.
+Proof. repeat split; vm_compute; reflexivity. Qed.
+
+(* a lower() that is not idempotent: NormalizeFieldKeys applied twice differs from once *)
+Example C17_gen_example_not_idem :
+  let bad := fun s : str => (s ++ lit "a")%list in
+  normalize_fields_gen bad (normalize_fields_gen bad [fld "k" 0]%string) <> normalize_fields_gen bad [fld "k" 0]%string.
+Proof. vm_compute. discriminate. Qed.
